@@ -207,8 +207,9 @@ func implSrcheck(t []string) string {
 			continue
 		}
 		for _, a := range strings.Split(h, ",") {
-			if a == "P31" {
-				delaysOf[i][len(chunksOf[i])] = 31 * time.Second
+			if strings.HasPrefix(a, "P") { // P<n>: a pause of n seconds before the next arrival
+				secs, _ := strconv.Atoi(a[1:])
+				delaysOf[i][len(chunksOf[i])] = time.Duration(secs) * time.Second
 				continue
 			}
 			p := strings.Split(a, ".")
@@ -235,6 +236,30 @@ func implSrcheck(t []string) string {
 		for i := range hists {
 			conns[i] = newMemConn(chunksOf[i])
 			conns[i].delays = delaysOf[i]
+			if len(chunksOf[i]) > 40 && enable {
+				// a long history: do not outrun the channel's writer (its queue holds 64 items and drops beyond that, legally): before
+				// handing out arrival j wait until the requests owed to the distinct ArduPilot senders before it are on the wire
+				owed := make([]int, len(chunksOf[i])+1)
+				seen := map[string]bool{}
+				j := 0
+				for _, a := range strings.Split(hists[i], ",") {
+					if strings.HasPrefix(a, "P") {
+						continue
+					}
+					owed[j] = 7 * len(seen)
+					if strings.HasSuffix(a, ".A") && !seen[a] {
+						seen[a] = true
+					}
+					j++
+				}
+				c := conns[i]
+				c.before = func(idx int) {
+					dl := time.Now().Add(2 * time.Second)
+					for idx < len(owed) && len(c.snapshotWrites()) < owed[idx] && time.Now().Before(dl) {
+						time.Sleep(50 * time.Microsecond)
+					}
+				}
+			}
 			eps = append(eps, gomavlib.EndpointCustom{ReadWriteCloser: conns[i]})
 		}
 	}
@@ -465,6 +490,12 @@ func genC16(r *rngT, n int, tier string) {
 		as = append(as, "1.1.A", "1.2.A", "3.77.A", "5.255.A")
 		jobs = append(jobs, job{op: "srcheck 1 common 4 " + strings.Join(as, ",") + " mem"})
 		stat("c16-sr-many")
+	}
+	{
+		// the same sender again after one and after two seconds: still inside the 30 s window, nothing may be requested again
+		defineDialect("common")
+		jobs = append(jobs, job{op: "srcheck 1 common 4 3.1.A,P1,3.1.A,4.1.A,P1,3.1.A,4.1.A;5.2.A,P2,5.2.A mem"})
+		stat("c16-sr-within-window")
 	}
 	if tier == "thorough" && n >= 30 {
 		// the 30 s rule, for real: the same sender again after 31 s (one request more), and another one in between (none)
